@@ -231,6 +231,10 @@ def run(chk):
     nc = rng.randint(1, 6)
     lab = rng.randint(-1, nc + 1, size=tuple(rng.randint(1, 4, size=rng.randint(0, 3))))
     on, off = float(rng.randint(1, 5)), float(rng.randint(-3, 1))
+    if trial % 4 == 1:
+      on, off = 0.0, -np.inf            # the stated values, whatever they are (a logit mask)
+    elif trial % 4 == 3:
+      on, off = np.inf, 1.0
     oh = np.asarray(common_utils.onehot(jnp.asarray(lab), nc, on_value=on, off_value=off))
     exp = np.where(lab[..., None] == np.arange(nc), on, off).astype(np.float32)
     chk.count(('C20:onehot', trial))
